@@ -1064,6 +1064,11 @@ def _get_slice_stmtlike_old(
                                         docstr=fst.FST.get_option('docstr', options),
                                         docstr_strict_exclude=asts[0] if asts and start else None)  # if slice gotten doesn't start at 0 then first element cannot be a 'strict' docstr even though it is first in the new slice
 
+    if getattr(get_ast, 'col_offset', 0) < 0:  # SPECIAL SLICE container which started at column 0 of a line that was dedented
+        get_ast.col_offset = 0
+
+        fst_._touch()
+
     if cut and is_last_child:  # correct for removed last child nodes or last nodes past the block open colon
         _set_end_pos_after_del(self, block_loc.ln, block_loc.col, put_loc.ln, put_loc.col)
 
